@@ -214,4 +214,70 @@ def run1 (s : St1) : List Op1 → St1
 def stored1 (s : St1) : Nat := (s.finishedFiles.map List.length).sum + (s.cur.getD []).length
 def markers (c : List Msg) : Nat := c.countP (· == .spilled)
 
+/-! #### ghost bookkeeping and the guard `if batch.num_rows() == 0 { continue; }`
+
+  `spill v` is `SpillPoolSink::push_batch` on a NON-EMPTY batch: it always stores `v`. That is what
+  `pull_from_input`'s guard guarantees (schemes that forward a batch unchanged would otherwise hand
+  zero-row batches to `OutputChannel::send`). `OpP.spillEmpty` is the same call on a ZERO-ROW batch,
+  reachable only without the guard: `push_batch` returns `Ok(())` WITHOUT storing anything and the
+  caller still sends a `Spilled` marker. -/
+
+/-- batches pushed to the pool, `Spilled` markers accepted by the channel, and the values handed to
+    `OutputChannel::send` in program order -/
+structure Ghost where
+  pushed : Nat
+  markersSent : Nat
+  sent : List Nat
+  deriving Repr, DecidableEq
+
+def ghost0 : Ghost := { pushed := 0, markersSent := 0, sent := [] }
+
+/-- bookkeeping for an ACCEPTED step -/
+def ghostStep (g : Ghost) : Op1 → Ghost
+  | .spill v _ => { g with pushed := g.pushed + 1, sent := g.sent ++ [v] }
+  | .sendSpilled => { g with markersSent := g.markersSent + 1 }
+  | .sendMem v => { g with sent := g.sent ++ [v] }
+  | _ => g
+
+def run1g (s : St1) (g : Ghost) : List Op1 → St1 × Ghost
+  | [] => (s, g)
+  | op :: ops =>
+    match step1 s op with
+    | some s' => run1g s' (ghostStep g op) ops
+    | none => run1g s g ops
+
+/-- the protocol WITHOUT the zero-row guard -/
+inductive OpP where
+  | base (op : Op1)
+  | spillEmpty
+  deriving Repr, DecidableEq
+
+def stepP (s : St1) : OpP → Option St1
+  | .base op => step1 s op
+  | .spillEmpty => if !s.alive ∨ s.owed ≠ 0 then none else some { s with owed := 1 }
+
+def ghostStepP (g : Ghost) : OpP → Ghost
+  | .base op => ghostStep g op
+  | .spillEmpty => g            -- nothing pushed, no row sent
+
+def runPg (s : St1) (g : Ghost) : List OpP → St1 × Ghost
+  | [] => (s, g)
+  | op :: ops =>
+    match stepP s op with
+    | some s' => runPg s' (ghostStepP g op) ops
+    | none => runPg s g ops
+
+/-- unread stored batches in pool order -/
+def storedL (s : St1) : List Nat := s.finishedFiles.flatten ++ s.cur.getD []
+
+/-- values sent and not yet delivered, in the order in which the reader will deliver them:
+    the batch the reader is fetching, then the channel's message (an in-memory batch, or a marker
+    standing for the next stored batch), then the stored batch whose marker is still to be sent -/
+def inflightOf (rs : Bool) (chan : List Msg) (st : List Nat) : List Nat :=
+  match chan with
+  | [.mem v] => (if rs then st.take 1 else []) ++ [v] ++ (if rs then st.drop 1 else st)
+  | _ => (if rs then st.take 1 else []) ++ (if rs then st.drop 1 else st)
+
+def inflight (s : St1) : List Nat := inflightOf (s.rstate == .readingSpilled) s.chan (storedL s)
+
 end DfModel.Mech.Exchange.Spsc
